@@ -4,6 +4,7 @@ CONSTANTS
   PNames = {"value", "target", "x", "y"}
   ExtraM = {"zz"}
   ExtraP = {"cmd"}
+  CmdP = {"cmd"}
   Wires = {"w1", "wbad"}
   ValidW = {"w1"}
   ENames = {"HardwareError", "Bogus"}
